@@ -219,6 +219,10 @@ func (ChainedContextualSubs) isGSUBLookup()  {}
 func (ExtensionSubs) isGSUBLookup()          {}
 func (ReverseChainSingleSubs) isGSUBLookup() {}
 
+// The generated parsers leave a nil [Coverage] for a null offset, but
+// a lookup subtable without coverage is invalid (and would never be applied).
+var errMissingCoverage = errors.New("invalid lookup subtable: missing Coverage table")
+
 func (ms MultipleSubs) Sanitize() error {
 	if exp, got := ms.Coverage.Len(), len(ms.Sequences); exp != got {
 		return fmt.Errorf("GSUB: invalid MultipleSubs sequences count (%d != %d)", exp, got)
@@ -281,6 +285,9 @@ func parseGSUBLookup(src []byte, lookupType uint16) (out GSUBLookup, err error) 
 		out, _, err = ParseReverseChainSingleSubs(src)
 	default:
 		err = fmt.Errorf("invalid GSUB Loopkup type %d", lookupType)
+	}
+	if _, isExt := out.(ExtensionSubs); err == nil && !isExt && out.Cov() == nil {
+		err = errMissingCoverage
 	}
 	return out, err
 }
@@ -425,6 +432,9 @@ func parseGPOSLookup(src []byte, lookupType uint16) (out GPOSLookup, err error) 
 		out, _, err = ParseExtensionPos(src)
 	default:
 		err = fmt.Errorf("invalid GPOS Loopkup type %d", lookupType)
+	}
+	if _, isExt := out.(ExtensionPos); err == nil && !isExt && out.Cov() == nil {
+		err = errMissingCoverage
 	}
 	return out, err
 }
